@@ -26,7 +26,9 @@ SOURCES = [
     "src/ampform/helicity/naming.py",
     "src/ampform/kinematics/__init__.py",
 ]
-REACTIONS = ["jpsi_k0_sigma_p", "lc_pkpi", "jpsi_k0_sigma_p_raw", "jpsi_gamma_pi0_pi0"]
+PAIR_REACTIONS = ["jpsi_k0_sigma_p", "lc_pkpi", "jpsi_k0_sigma_p_raw", "jpsi_gamma_pi0_pi0"]
+GAP_REACTIONS = ["chic0_omega_phi", "etac_LLbar"]  # several outer helicity combinations without transition
+REACTIONS = PAIR_REACTIONS + GAP_REACTIONS
 HIST_DYNAMICS = ["create_non_dynamic", "create_relativistic_breit_wigner"]
 SIZES = {
     "quick": {"histories": 5, "ops": 55, "interleavings": 0, "hashseeds": ["prng"], "scan_seeds": 12, "cover_seeds": 3, "own_process": 2,
@@ -131,10 +133,13 @@ def random_set_op(rng, b: int, info: dict) -> dict:
 def gen_segment(rng, infos: dict, n_ops: int, first_builder: int, malformed: bool, stats: dict):
     """One history segment: two builders sharing a reaction object (+ sometimes a third builder on
     another reaction).  Returns (ops, builder reaction names)."""
-    r0 = rng.choice(REACTIONS)
+    def pick():
+        return rng.choice(PAIR_REACTIONS) if rng.random() < 0.8 else rng.choice(GAP_REACTIONS)
+
+    r0 = pick()
     names = [r0, r0]
     if rng.random() < 0.5:
-        names.append(rng.choice(REACTIONS))
+        names.append(pick())
     ops = [{"op": "new", "r": r} for r in names]
     tracked = [Tracked(r, infos[r]["own"]) for r in names]
     visited: list[tuple[str, dict]] = []
@@ -185,7 +190,7 @@ def scripted_segments(rng, infos: dict, first_builder: int, stats: dict):
     in one process, A-B-A, so that state keyed too coarsely (not on the reaction) shows up."""
     segments = []
     fb = first_builder
-    pairs = [(a, b) for a in REACTIONS for b in REACTIONS if a < b]
+    pairs = [(a, b) for a in PAIR_REACTIONS for b in PAIR_REACTIONS if a < b]
     for r1, r2 in pairs:
         both_dpd = all(isinstance(infos[r]["dpd"].get(1), int) or isinstance(infos[r]["dpd"].get("1"), int) for r in (r1, r2))
         both_axis = all(isinstance(infos[r]["axis"], int) for r in (r1, r2))
@@ -203,6 +208,16 @@ def scripted_segments(rng, infos: dict, first_builder: int, stats: dict):
             segments.append((ops, [r1, r2]))
             fb += 2
             stats["scripted_pairs"] = stats.get("scripted_pairs", 0) + 1
+    # reactions with zero-defined ("missing") amplitudes: always formulated, so that they take part
+    # in the fresh-process / hash-seed comparison
+    for r in GAP_REACTIONS:
+        ops = [{"op": "new", "r": r}, {"op": "new", "r": r}, {"op": "formulate", "b": fb},
+               {"op": "set", "b": fb + 1, "field": "hel", "value": True}, {"op": "formulate", "b": fb + 1},
+               {"op": "set", "b": fb, "field": "align", "value": "axis"}, {"op": "formulate", "b": fb},
+               {"op": "formulate", "b": fb + 1}]
+        segments.append((ops, [r, r]))
+        fb += 2
+        stats["scripted_gap_reactions"] = stats.get("scripted_gap_reactions", 0) + 1
     return segments
 
 
@@ -350,7 +365,7 @@ class C06Property:
             plan.append(("sort", c, None))
         # (3) merge of per-topology maps in every iteration order, then the sorting converter
         merge_cases = []
-        for rname in REACTIONS[:3]:
+        for rname in PAIR_REACTIONS[:3]:
             maps = R.topology_maps(rname)
             merge_cases.append((rname, maps))
         try:
@@ -492,7 +507,7 @@ class C06Property:
         obs = S.Observations()
         evaluations = 0
         failing: list[tuple[dict, dict]] = []
-        variant = {"aliased": 0, "reset": 1, "shared": 0, "tiebreak": 1}
+        variant = {"aliased": 0, "reset": 1, "shared": 0, "tiebreak": 1, "missing_sorted": 1}
         probe_reaction = "jpsi_k0_sigma_p"
         finals = [1, 2, 3]
         probes = S.probe_histories(probe_reaction, finals, "N(1650)+")
@@ -534,7 +549,7 @@ class C06Property:
         except Exception as e:  # noqa: BLE001
             chk.note(f"converter probe not possible: {type(e).__name__}")
         chk.info("inferred_variant", variant)
-        if variant != {"aliased": 0, "reset": 1, "shared": 0, "tiebreak": 1}:
+        if variant != {"aliased": 0, "reset": 1, "shared": 0, "tiebreak": 1, "missing_sorted": 1}:
             chk.broken_correspondence("variant", {"inferred": variant, "note": "C06_pure needs the sound variant; the witness history replays on the real code"})
 
         # --- 3. histories on the real builders, in this process ------------------------------
@@ -568,7 +583,7 @@ class C06Property:
             nb += len(names)
         scripted = scripted_segments(rng, infos, nb, stats)
         segments += scripted
-        nb += 2 * len(scripted)
+        nb += sum(len(n) for _, n in scripted)
         if size["interleavings"]:
             inter = gen_interleavings(rng, infos, size["interleavings"], nb, stats)
             segments += inter
@@ -579,6 +594,7 @@ class C06Property:
         all_res: list[dict] = []
         formulates: list[dict] = []
         sort_cases: list[dict] = []
+        missing_cases: list[dict] = []
         nbuilders = 0
         t1 = time.time()
         for si, (ops, names) in enumerate(segments):
@@ -607,7 +623,21 @@ class C06Property:
                     obs.add(t.rname, t.key(), r["digest"], {"process": "main", "op": rec["index"]})
                     if "error" not in r["digest"] and len(sort_cases) < 40 and rng.random() < 0.5:
                         self.collect_sort_cases(ex.builders[op["b"]], ex.last_model, rng, sort_cases)
+                    n_gap = sum(1 for c in missing_cases if c["reaction"] in GAP_REACTIONS)
+                    if "error" not in r["digest"] and (
+                            (t.rname in GAP_REACTIONS and n_gap < 10)
+                            or (t.rname not in GAP_REACTIONS and len(missing_cases) - n_gap < 5 and rng.random() < 0.08)):
+                        self.collect_missing_case(ex.builders[op["b"]], ex.last_model, t.rname, missing_cases)
         chk.info("history_time_s", round(time.time() - t1, 1))
+        # `__define_missing_amplitudes`: are the zero definitions inserted in sorted(str) order?
+        unsorted = [c for c in missing_cases if c["zero_inserted"] != sorted(c["zero_inserted"])]
+        chk.info("missing_amplitude_cases", {"cases": len(missing_cases), "with_two_or_more_missing": sum(1 for c in missing_cases if len(c["zero_inserted"]) >= 2),
+                                             "inserted_unsorted": len(unsorted)})
+        if unsorted:
+            variant["missing_sorted"] = 0
+            chk.info("inferred_variant", variant)
+            chk.broken_correspondence("variant", {"inferred": variant, "note": "zero definitions are not inserted in sorted(str) order; C06_witness_missing applies",
+                                                  "example": {k: unsorted[0][k] for k in ("reaction", "zero_inserted")}})
         chk.info("input_distribution", {"segments": len(segments), "operations": len(all_ops), "builders": nbuilders,
                                         "formulate": len(formulates), "by_kind": stats,
                                         "errors": sum(1 for f in formulates if "error" in f["digest"]),
@@ -617,7 +647,7 @@ class C06Property:
             chk.sample({"reaction": f["rname"], "configuration": json.loads(f["cfg"]), "digest": f["digest"]["all"]})
 
         # --- 4. the same history through the Lean model ---------------------------------------
-        lean_in = world_lines + [f"begin {variant['aliased']} {variant['reset']} {variant['shared']} {variant['tiebreak']}"] + \
+        lean_in = world_lines + [f"begin {variant['aliased']} {variant['reset']} {variant['shared']} {variant['tiebreak']} {variant['missing_sorted']}"] + \
             lean_lines_for(all_ops, all_res, builder_names, infos, rids)
         lean_f: list[dict] = []
         t_lean0 = time.time()
@@ -651,6 +681,10 @@ class C06Property:
         seeds = [str(rng.randrange(1, 2**31)) if s == "prng" else s for s in size["hashseeds"]]
         cover, scan_info = S.covering_seeds([str(i) for i in range(size["scan_seeds"])], REACTIONS, size["cover_seeds"])
         chk.info("hash_seed_scan", scan_info)
+        gap_orders = {r: scan_info["orders_covered_by_picked_seeds"].get("indexed-atoms:" + r, 0) for r in GAP_REACTIONS}
+        chk.info("atom_set_orders_covered_for_gap_reactions", gap_orders)
+        if any(v < 2 for v in gap_orders.values()):
+            chk.note(f"hash-seed comparison of the zero-defined amplitudes is VACUOUS for some reaction (fewer than 2 set orders among the picked seeds): {gap_orders}")
         seeds += [s for s in cover if s not in seeds]
         chunk = max(4, -(-len(ref_hist) // 4))
         jobs = [(s, lo) for s in seeds for lo in range(0, len(ref_hist), chunk)]
@@ -752,6 +786,7 @@ class C06Property:
         t_sort0 = time.time()
         try:
             self.sort_and_merge_tie(chk, common.rng_for(PROP_ID, seed, "sort"), size, sort_cases, variant["tiebreak"])
+            self.missing_tie(chk, common.rng_for(PROP_ID, seed, "missing"), missing_cases, variant["missing_sorted"])
         except common.LeanRunError as e:
             chk.broken_correspondence("natural-sort driver", str(e)[:800])
         except Exception as e:  # noqa: BLE001
@@ -789,6 +824,60 @@ class C06Property:
         shuffled = list(names)
         rng.shuffle(shuffled)
         sort_cases.append({"what": "kinematic_variables", "input": shuffled, "real_output": names})
+
+    def collect_missing_case(self, builder, model, rname: str, cases: list[dict]):
+        from tools.corr import C06_real as R
+
+        ing = getattr(builder, "_HelicityAmplitudeBuilder__ingredients", None)
+        if ing is None or model is None:
+            return
+        try:
+            atoms = [str(a) for a in R.intensity_atoms(model)]
+        except Exception:  # noqa: BLE001
+            return
+        cases.append({"reaction": rname,
+                      "registered": [str(k) for k, v in ing.amplitudes.items() if v != 0],
+                      "zero_inserted": [str(k) for k, v in ing.amplitudes.items() if v == 0],
+                      "atoms": atoms, "real_output": [str(k) for k in model.amplitudes]})
+
+    def missing_tie(self, chk: common.Check, rng, cases: list[dict], ms: int):
+        """Lean: define the missing amplitudes (inner sort by str iff `ms`), then the stable natural sort
+        of the converter; must reproduce the real key order of model.amplitudes."""
+        lines, plan = [], []
+        for c in cases:
+            if set(c["atoms"]) != set(c["registered"]) | set(c["zero_inserted"]):
+                chk.note(f"atoms of the intensity and defined amplitudes differ for {c['reaction']} (C01's subject)")
+                continue
+            if ms:
+                atoms = list(c["atoms"])
+                rng.shuffle(atoms)
+            else:
+                atoms = list(c["zero_inserted"])
+            lines.append(f"missing {ms} " + " ".join(hexname(n) for n in c["registered"]) + " | " + " ".join(hexname(n) for n in atoms))
+            plan.append(c)
+        if not lines:
+            return
+        out = common.lean_run(DRIVER, "\n".join(lines) + "\n").strip().split("\n")
+        if len(out) != len(plan):
+            chk.broken_correspondence("missing-amplitude driver", f"{len(out)} replies for {len(plan)} requests")
+            return
+        inv = {}
+        for c in plan:
+            for n in c["registered"] + c["zero_inserted"]:
+                inv[hexname(n)] = n
+        n_ok = 0
+        for c, reply in zip(plan, out):
+            toks = reply.split()[1:]
+            lean_order = [inv.get(t.split("=")[0], "?") for t in toks]
+            lean_zero = [inv.get(t.split("=")[0], "?") for t in toks if t.endswith("=0")]
+            chk.count(("missing", c["reaction"], tuple(c["real_output"])))
+            if lean_order != c["real_output"] or sorted(lean_zero) != sorted(c["zero_inserted"]):
+                chk.broken_correspondence("order of model.amplitudes after defining the missing amplitudes",
+                                          {"reaction": c["reaction"], "real": c["real_output"], "lean": lean_order})
+            else:
+                n_ok += 1
+        chk.coverage["missing_amplitude_cases"]["compared_with_lean"] = len(plan)
+        chk.coverage["missing_amplitude_cases"]["agree"] = n_ok
 
     def make_replay(self, v: dict, all_ops: list[dict], segments, size: dict, chk) -> dict:
         """Replay = histories (each run in a fresh process with its hash seed) + the two formulate
@@ -935,21 +1024,26 @@ MANIFEST = {
                  "fresh-process / PYTHONHASHSEED sweep as independent oracle",
     "design_ref": "DESIGN.md §3 C06",
     "text": (
-        "Proof (11 theorems, all unbounded in the history; none partial). Model/C06Purity.lean is a state machine over a process-global heap: "
+        "Proof (14 theorems, all unbounded in the history; none partial). Model/C06Purity.lean is a state machine over a process-global heap: "
         "every functools.cache / lru_cache of the package (10, listed as CacheId; found by grep and re-found by introspection on every run) holds its "
         "result by reference, builders carry ingredients, their own and the user-intended configuration, and the adapter's topology SET with an explicit "
         "iteration order; formulate() is modelled line by line where it touches shared state (reset, registration of combinatorics topologies, stable / "
-        "scalar masses, the in-place update of the dict returned by define_symbols, update, the sorting converters with the modelled natural_sorting). "
+        "scalar masses, the zero definitions of __define_missing_amplitudes over the atoms SET of the intensity with its inner sorted(key=str), the "
+        "in-place update of the dict returned by define_symbols, update, the sorting converters with the modelled natural_sorting). "
         "C06_pure: in the sound variant, for every world with pairwise-consistent topology maps (C07's no-collision premise) and distinct symbol names, "
         "and for every history (any builders, reactions, interleavings of configure / register_topology / formulate / rejected assignments / cache "
-        "evictions, ANY iteration order of the topology set after every change = any hash seed or registration order) every formulate returns "
+        "evictions, ANY iteration order of the topology set after every change and ANY iteration order of the intensity's atoms set at every formulate = "
+        "any hash seed or registration order) every formulate returns "
         "F(reaction, user configuration), F mentioning neither heap nor history; proof by the invariant 'every cache entry is the pure value of its key' "
         "(C06_cache_entries_stay_pure) by induction over the history. C06_same_configuration_same_model: equal (reaction, configuration) give equal models "
         "from any two reachable states (other history, other process). C06_order / C06_order_linear: merging pairwise-consistent maps and sorting with the "
         "key (natural_sorting(name), name) is independent of the merge order, with no 'no ties' premise (nameLe is proved to be a linear order); "
-        "C06_order_needs_tie_break shows the statement is false for the plain natural sort (m_1 / m_01). Every unsound switch has a kernel-checked, "
+        "C06_order_needs_tie_break shows the statement is false for the plain natural sort (m_1 / m_01). C06_missing_order: defining the missing amplitudes "
+        "in sorted(str) order makes the key order of model.amplitudes independent of the atoms-set iteration order for ANY converter order, ties included; "
+        "C06_missing_order_needs_inner_sort: false without the inner sort when two keys tie under the converter's key (A[0, -1] / A[0, 1]). "
+        "Every unsound switch has a kernel-checked, "
         "replayable witness: C06_witness_alias(+_not_pure) (memoised DPD dict aliased, before b218b43), C06_witness_noreset, C06_witness_shared, "
-        "C06_witness_ties (before 043d8fb). Tie on every run: the variant is inferred by replaying the witness histories on the real code in a fresh "
+        "C06_witness_ties (before 043d8fb), C06_witness_missing (zero definitions in set order). Tie on every run: the variant is inferred by replaying the witness histories on the real code in a fresh "
         "process; seeded random + scripted histories (two builders sharing a reaction object, third builder on another reaction, revisits of earlier "
         "configurations, malformed assignments, cache_clear, register/permutate) run on the real builders in the checking process and, operation by "
         "operation, through the Lean model whose world tables (alignment symbols and the mass symbols they contain, per-topology maps, names, "
@@ -957,15 +1051,18 @@ MANIFEST = {
         "equal outputs and purity w.r.t. fresh-process models must agree; natural_sorting tokens / sorted orders / merge results are compared with the "
         "real functions. Independent oracle: all srepr digests (six attributes, key order included) observed for one (reaction, configuration) in the "
         "checking process, in fresh processes and under several PYTHONHASHSEEDs (chosen to cover every observed iteration order of the hash-ordered "
-        "containers; thorough adds unset/0/1/4242, own processes, schedules of two interleaved builders) must be equal. Bounded: the histories use four "
-        "3-body reactions (DPD, axis-angle, identical particles, half-integer spins); 4-body topologies only in the merge comparison."
+        "containers, incl. the atoms set of the two reactions with zero-defined amplitudes, for which >= 2 distinct set orders among the picked seeds are "
+        "recorded in the evidence; thorough adds unset/0/1/4242, own processes, schedules of two interleaved builders) must be equal. The order of "
+        "model.amplitudes is also recomputed by the Lean model (define missing + stable natural sort) from the real registered keys and atoms. "
+        "Bounded: the histories use four 3-body reactions (DPD, axis-angle, identical particles, half-integer spins) and two 2-body reactions with "
+        "missing helicity combinations (chi_c0 -> omega phi, eta_c -> Lambda Lambda~); 4-body topologies only in the merge comparison."
     ),
     "level_note": (
         "Trusted: Lean 4.33 kernel (axioms propext, Classical.choice, Quot.sound; thorough re-checks with leanchecker); the hand-written model "
         "(import-free; compared with the real code on every run as described). Executed, not modelled (World fields of the theorems): amplitude / "
         "Wigner-D / angle-formula generation, qrules, sympy (incl. its own global cache), CPython dict/set/hash semantics; the premise "
-        "'topology maps pairwise consistent' is C07's claim (known finding for permuted 4-body topologies) and 'distinct symbols have distinct names' is "
-        "assumed. Digests are 64-bit sha1 prefixes of srepr strings. natural_sorting model assumes text pieces are not float literals (inf/nan) and "
+        "'topology maps pairwise consistent' is C07's claim (known finding for permuted 4-body topologies); 'distinct symbols have distinct names' and "
+        "'distinct amplitude symbols print differently' are assumed. Digests are 64-bit sha1 prefixes of srepr strings. natural_sorting model assumes text pieces are not float literals (inf/nan) and "
         "numbers have <= 15 significant digits; set-of-int iteration (stable ids) is modelled as sorted. The checking process re-executes itself "
         "once with a PYTHONHASHSEED derived from VERIF_SEED so that runs and replays are reproducible."
     ),
